@@ -19,6 +19,7 @@ RULE = (
     "exactly columns, none empty, concatenation minus legitimate padding spaces (end of line, next line starts with a "
     "double-width char of the same formatting) == cells(f); differential: greedy reference wrap gives the same partition of "
     "base cells. Non-trivial: >=2 lines and (a padding space or a run boundary exactly at a line boundary)."
+    ' Hypothesis inputs go up to 70 runs / 150 characters per run, column limits up to 132, and are also built by repetition of the same run objects (f * n) and other derivations from observed parents.'
 )
 ASSUMPTIONS = [
     "character widths: wcwidth package restricted to an alphabet on which it agrees with cwcwidth (checked at start)",
